@@ -180,6 +180,15 @@ func runTwin(tb twinBook, container string) twinResult {
 		w.writeXLSXBook("", baseBook(), false)
 		w.writeXLSXBook("", tb.book, true)
 		ro.Formats = []format.Format{format.Excel}
+	case "csv-of-xlsx-num":
+		// the CSV export of the number-typed XLSX file: what a spreadsheet program shows in each cell
+		tmp := newWorkspace()
+		tmp.writeXLSXBook("", tb.book, true)
+		twin := csvTwinOf(filepath.Join(tmp.In, tb.book.Name+".xlsx"), tb.book)
+		tmp.cleanup()
+		w.writeCSVBook("", baseBook())
+		w.writeCSVBook("", twin)
+		ro.Formats = []format.Format{format.CSV}
 	}
 	res := twinResult{}
 	if err := w.genProto(ro); err != nil {
@@ -258,6 +267,7 @@ func init() {
 		csv := runTwin(tb, "csv")
 		xs := runTwin(tb, "xlsx-str")
 		xn := runTwin(tb, "xlsx-num")
+		cn := runTwin(tb, "csv-of-xlsx-num")
 		status := "ok"
 		if csv.protoErr {
 			status = "protoerr"
@@ -267,7 +277,7 @@ func init() {
 		if d := compareTwin(csv, xs, "csv/xlsx-str"); d != "" {
 			return "differ " + d
 		}
-		if d := compareTwin(csv, xn, "csv/xlsx-num"); d != "" {
+		if d := compareTwin(cn, xn, "csv-of-xlsx-num/xlsx-num"); d != "" {
 			return "differ " + d
 		}
 		return "same " + status
